@@ -641,7 +641,7 @@ impl Sim {
         for id in &aw {
             let n = seen.get(id).copied().unwrap_or(0);
             if n != 1 {
-                self.viol(ctx, M_C11 | M_C05, "hook:timeout-entries-per-request", format!("awaiting request {} has {} timeout entries (expected 1)", short_id(id), n));
+                self.viol(ctx, M_C11 | M_C05 | M_C03, "hook:timeout-entries-per-request", format!("awaiting request {} has {} timeout entries (expected 1)", short_id(id), n));
             }
         }
         ctx.count("hook.table-checks");
